@@ -37,6 +37,10 @@ def gen_case(rng, i, tier):
         lat = [x / 10 for x in range(1, 150)] if method == "log" else [x / 10 for x in range(-75, 76)]
     else:
         lat = [x / 4 for x in range(1, 60)] if method == "log" else [x / 4 for x in range(-30, 31)]
+    # target_data may be integer-typed (pressure in whole hPa): then every profile value is a whole number
+    td_int = (not decimal) and rng.random() < 0.15
+    if td_int:
+        lat = [float(x) for x in (range(1, 40) if method == "log" else range(-20, 21))]
     bypass = rng.random() < 0.25
     cols, dirs = [], []
     for _ in range(ncol):
@@ -78,7 +82,7 @@ def gen_case(rng, i, tier):
             "dask": rng.choice([None, None, "synchronous", "threads"]),
             "suffix": rng.choice([None, None, "_on_rho", ""]), "name": rng.choice(["foo", "temp", None, "temp_transformed", "sal_on_rho"]),
             "tdname": rng.choice(["dens", "sigma0", None]), "extra_pos": rng.sample(["left", "outer"], rng.choice([0, 1])),
-            "dtype": rng.choice(["float64"] * 7 + ["int64", "float32", "float32"]), "decimal": decimal}
+            "dtype": rng.choice(["float64"] * 7 + ["int64", "float32", "float32"]), "decimal": decimal, "td_int": td_int}
 
 
 def model_column(xs, ys, levels, mask, log):
@@ -118,6 +122,8 @@ def run_case(ctx, desc):
     if ctx.evaluations % 60 == 1:
         ctx.sample(desc)
     theta = np.array(cols, float)
+    if desc.get("td_int"):
+        theta = theta.astype("int64")
     if desc["path"] == "kernel":
         import xgcm.transform as T
 
